@@ -183,8 +183,12 @@ def default_kwargs_for(h):
     if h % 16 == 6:
         return {"delimiter": "|", "quotechar": "'"}
     if h % 32 in (14, 27):
+        if h % 64 >= 32:
+            return {"flush_on_insert": False}          # what the database answers must not depend on whether a row has left the handle's buffer yet
         return {"encoding": "latin-1"}                 # the text encoding belongs to every file the storage opens, scratch files included
     if h % 32 in (30, 11):
+        if h % 64 >= 32:
+            return {"flush_on_insert": False, "encoding": "utf-8"}
         return {"encoding": "utf-16"}
     return {}
 
